@@ -192,6 +192,9 @@ func canonV(v reflect.Value, m Mode, singleItemPos bool) *Node {
 		n := &Node{Kind: kind, GoT: t.Name(), Props: map[string]*Node{}}
 		for i := 0; i < t.NumField(); i++ {
 			f := t.Field(i)
+			if !f.IsExported() {
+				continue
+			}
 			c := canonV(v.Field(i), m, f.Type.Kind() == reflect.Interface)
 			if c != nil {
 				n.Props[Term(f)] = c
